@@ -49,6 +49,7 @@ type irVector struct {
 	Want  irWant  `json:"want"`
 	// history vectors (MetadataHist.tla): insert position, operands and outcome of the second print
 	Ins   *int    `json:"ins,omitempty"`
+	Del   int     `json:"del,omitempty"` // > 0: that definition (from 1) is removed after the first print
 	Refs2 [][]int `json:"refs2,omitempty"`
 	Want2 *irWant `json:"want2,omitempty"`
 	// vectors of MetadataWide.tla: IDs are model IDs, Wide is the table of the wide ones (scale.go)
@@ -60,6 +61,7 @@ type irRow struct {
 	Refs  [][]int `json:"refs"`
 	Got   irWant  `json:"got"`
 	Ins   *int    `json:"ins,omitempty"`
+	Del   int     `json:"del,omitempty"`
 	Refs2 [][]int `json:"refs2,omitempty"`
 	Got2  *irWant `json:"got2,omitempty"`
 	raw   irWant  // what was printed, concrete IDs (for messages)
@@ -132,6 +134,7 @@ func evalIR(vectors []irVector) (rows []irRow, texts []string, extras []string, 
 		jobs[i] = job{Kind: "ir", IDs: concreteAll(v.IDs), Refs: v.Refs, Ins: -1}
 		if v.Ins != nil {
 			jobs[i].Ins = *v.Ins
+			jobs[i].Del = v.Del
 		}
 	}
 	res := runJobs(jobs)
@@ -146,11 +149,16 @@ func evalIR(vectors []irVector) (rows []irRow, texts []string, extras []string, 
 		extras[i] = r.Extra
 		if v.Ins != nil {
 			rows[i].Ins = v.Ins
-			rows[i].Refs2 = normRefs(v.Refs2, len(v.IDs)+1)
+			rows[i].Del = v.Del
+			n2 := len(v.IDs) + 1
+			if v.Del > 0 {
+				n2--
+			}
+			rows[i].Refs2 = normRefs(v.Refs2, n2)
 			g2 := modelWant(r.Got2)
 			rows[i].Got2 = &g2
 			if r.Extra == "" && r.Extra2 != "" {
-				extras[i] = "after inserting an unnumbered definition and printing again: " + r.Extra2
+				extras[i] = "after " + delWords(v) + "inserting an unnumbered definition and printing again: " + r.Extra2
 			}
 			if r.Text2 != "" {
 				texts[i] = r.Text2
@@ -468,6 +476,9 @@ func Run(tier, replay string) {
 		caseOf := map[string]interface{}{"kind": "ir", "ids": v.IDs, "refs": v.Refs, "shape": v.Shape, "wide": scaleTable}
 		if v.Ins != nil {
 			caseOf["ins"], caseOf["refs2"] = *v.Ins, v.Refs2
+			if v.Del > 0 {
+				caseOf["del"] = v.Del
+			}
 		}
 		if c := irCrashed[i]; c != nil {
 			if c.Phase != "skipped" {
@@ -549,12 +560,25 @@ func histTag(v irVector) string {
 	if v.Ins == nil {
 		return ""
 	}
+	if v.Del > 0 {
+		return "|print-remove-insert-print"
+	}
 	return "|print-insert-print"
+}
+
+func delWords(v irVector) string {
+	if v.Del > 0 {
+		return fmt.Sprintf("removing definition %d and ", v.Del-1)
+	}
+	return ""
 }
 
 func histWords(v irVector) string {
 	if v.Ins == nil {
 		return ""
+	}
+	if v.Del > 0 {
+		return fmt.Sprintf(", printed, definition %d removed, unnumbered definition inserted after position %d, printed again", v.Del-1, *v.Ins)
 	}
 	return fmt.Sprintf(", printed, unnumbered definition inserted after position %d, printed again", *v.Ins)
 }
@@ -1123,6 +1147,9 @@ func runReplay(rep *mbt.Report, path string) {
 				n := int(x)
 				v.Ins = &n
 				v.Refs2 = make([][]int, len(v.IDs)+1) // operands of the second print are not needed to re-run
+				if d, ok := c["del"].(float64); ok {
+					v.Del = int(d)
+				}
 			}
 			rows, _, extras, crashed := evalIR([]irVector{v})
 			rep.Count(fmt.Sprintf("ir:%v", v.IDs), true)
